@@ -469,4 +469,130 @@ example : (∀ i : Int, centre (1:Rat) (1/2) (i + 1) = centre (1:Rat) (1/2) i + 
 
 end flux
 
+/-! ## two coupled fields: `a` relaxes with non-conserving conditions, `c` obeys `∂_t c = ∇²(c³ - c + κ a)` with conserving
+conditions - the total of `c` is kept by every solver of the run model although the state couples both fields -/
+section props
+variable {F : Type} [Field F]
+
+/-- the field `c` of a collection, as a linear map on states -/
+def projC : (Arr F) →ₗ[F] (Arr F) where
+  toFun u := fieldOf 1 u
+  map_add' _ _ := rfl
+  map_smul' _ _ := rfl
+
+theorem twoFieldRate_c (cls : GridCls) (shape : List Nat) (lo : F) (dxs : List F) (pers : List Bool) (κ' : F)
+    (u t : Arr F) : fieldOf 1 (twoFieldRate cls shape lo dxs pers κ' u t) = consRate cls shape lo dxs pers (muTwo κ') u t := by
+  funext tl
+  simp [fieldOf, twoFieldRate]
+
+theorem twoField_conserving (I : (Arr F) →ₗ[F] F) (cls : GridCls) (shape : List Nat) (lo : F) (dxs : List F)
+    (pers : List Bool) (κ' : F) (h : Conserving I (consRate cls shape lo dxs pers (muTwo κ'))) :
+    Conserving (I.comp projC) (twoFieldRate cls shape lo dxs pers κ') := by
+  intro w s
+  show I (fieldOf 1 (twoFieldRate cls shape lo dxs pers κ' w s)) = 0
+  rw [twoFieldRate_c]; exact h w s
+
+theorem twoField_readsOnly (I : (Arr F) →ₗ[F] F) (shape : List Nat) (h : ReadsOnly I (validCells shape)) :
+    ReadsOnly (I.comp projC) (cells2 shape) := by
+  intro x y hxy
+  show I (fieldOf 1 x) = I (fieldOf 1 y)
+  apply h
+  intro idx hidx
+  exact hxy (1 :: idx) (by simp [cells2, hidx])
+
+end props
+
+section runs2
+variable {F : Type} [Field F] [CharZero F] [HasNormSq F] [LT F] [DecidableLT F] [LE F] [DecidableLE F] [HasFloor F]
+
+theorem cart1_run2_conserves (dx lo : F) (hdx : dx ≠ 0) (n : Nat) (hn : 1 ≤ n) (px : Bool) (κ' : F)
+    (sol : RunSolver F) (dt ts te atol : F) (fuel k k' : Nat) (s s' : List F) (tr : F)
+    (h : solverRuns (cells2 [n]) sol (twoFieldRate .cart [n] lo [dx] [px] κ') dt te atol fuel ts s k = some (s', tr, k')) :
+    cellMass2 .cart [n] lo [dx] s' = cellMass2 .cart [n] lo [dx] s :=
+  solverRuns_conserves ((cellSum (fun _ => dx) (fun i => [(i : Int)]) n).comp projC) (cells2 [n])
+    (twoField_readsOnly _ [n] (cellSum_readsOnly _ _ n _ (fun i h1 h2 => mem_validCells_cons n [] i [] h1 h2 mem_validCells_nil)))
+    (twoFieldRate .cart [n] lo [dx] [px] κ')
+    (twoField_conserving _ .cart [n] lo [dx] [px] κ' (cart1Rate_conserving dx hdx n hn px (muTwo κ')))
+    sol dt te atol fuel ts s k s' tr k' h
+
+theorem cart2_run2_conserves (dx dy lo : F) (hdx : dx ≠ 0) (hdy : dy ≠ 0) (n m : Nat) (hn : 1 ≤ n) (hm : 1 ≤ m)
+    (px py : Bool) (κ' : F) (sol : RunSolver F) (dt ts te atol : F) (fuel k k' : Nat) (s s' : List F) (tr : F)
+    (h : solverRuns (cells2 [n, m]) sol (twoFieldRate .cart [n, m] lo [dx, dy] [px, py] κ') dt te atol fuel ts s k
+      = some (s', tr, k')) :
+    cellMass2 .cart [n, m] lo [dx, dy] s' = cellMass2 .cart [n, m] lo [dx, dy] s :=
+  solverRuns_conserves ((cellSum2 (fun _ _ => dx * dy) (fun i j => [(i : Int), (j : Int)]) n m).comp projC) (cells2 [n, m])
+    (twoField_readsOnly _ [n, m] (cellSum2_readsOnly _ _ n m _ (fun i j h1 h2 h3 h4 =>
+      mem_validCells_cons n [m] i [(j : Int)] h1 h2 (mem_validCells_cons m [] j [] h3 h4 mem_validCells_nil))))
+    (twoFieldRate .cart [n, m] lo [dx, dy] [px, py] κ')
+    (twoField_conserving _ .cart [n, m] lo [dx, dy] [px, py] κ' (cart2Rate_conserving dx dy hdx hdy n m hn hm px py (muTwo κ')))
+    sol dt te atol fuel ts s k s' tr k' h
+
+theorem cart3_run2_conserves (dx dy dz lo : F) (hdx : dx ≠ 0) (hdy : dy ≠ 0) (hdz : dz ≠ 0) (n m l : Nat)
+    (hn : 1 ≤ n) (hm : 1 ≤ m) (hl : 1 ≤ l) (px py pz : Bool) (κ' : F) (sol : RunSolver F)
+    (dt ts te atol : F) (fuel k k' : Nat) (s s' : List F) (tr : F)
+    (h : solverRuns (cells2 [n, m, l]) sol (twoFieldRate .cart [n, m, l] lo [dx, dy, dz] [px, py, pz] κ') dt te atol fuel ts s k
+      = some (s', tr, k')) :
+    cellMass2 .cart [n, m, l] lo [dx, dy, dz] s' = cellMass2 .cart [n, m, l] lo [dx, dy, dz] s :=
+  solverRuns_conserves
+    ((cellSum3 (fun _ _ _ => dx * dy * dz) (fun i j k => [(i : Int), (j : Int), (k : Int)]) n m l).comp projC) (cells2 [n, m, l])
+    (twoField_readsOnly _ [n, m, l] (cellSum3_readsOnly _ _ n m l _ (fun i j k h1 h2 h3 h4 h5 h6 =>
+      mem_validCells_cons n [m, l] i [(j : Int), (k : Int)] h1 h2
+        (mem_validCells_cons m [l] j [(k : Int)] h3 h4 (mem_validCells_cons l [] k [] h5 h6 mem_validCells_nil)))))
+    (twoFieldRate .cart [n, m, l] lo [dx, dy, dz] [px, py, pz] κ')
+    (twoField_conserving _ .cart [n, m, l] lo [dx, dy, dz] [px, py, pz] κ'
+      (cart3Rate_conserving dx dy dz hdx hdy hdz n m l hn hm hl px py pz (muTwo κ')))
+    sol dt te atol fuel ts s k s' tr k' h
+end runs2
+
+section radialruns2
+variable {F : Type} [Field F] [LinearOrder F] [IsStrictOrderedRing F] [HasNormSq F] [HasFloor F]
+
+theorem polar_run2_conserves (rmin dr : F) (h0 : 0 ≤ rmin) (hdr : 0 < dr) (n : Nat) (hn : 1 ≤ n) (κ' : F)
+    (sol : RunSolver F) (dt ts te atol : F) (fuel k k' : Nat) (s s' : List F) (tr : F)
+    (h : solverRuns (cells2 [n]) sol (twoFieldRate .polar [n] rmin [dr] [false] κ') dt te atol fuel ts s k = some (s', tr, k')) :
+    cellMass2 .polar [n] rmin [dr] s' = cellMass2 .polar [n] rmin [dr] s :=
+  solverRuns_conserves ((cellSum (fun i => volPolar (centre rmin dr) dr (i : Int)) (fun i => [(i : Int)]) n).comp projC)
+    (cells2 [n])
+    (twoField_readsOnly _ [n] (cellSum_readsOnly _ _ n _ (fun i h1 h2 => mem_validCells_cons n [] i [] h1 h2 mem_validCells_nil)))
+    (twoFieldRate .polar [n] rmin [dr] [false] κ')
+    (twoField_conserving _ .polar [n] rmin [dr] [false] κ'
+      (polarRate_conserving rmin dr h0 hdr n hn _ _ (Or.inr ⟨rfl, rfl⟩) (fun k hk => by simp [consCond] at hk) (muTwo κ')))
+    sol dt te atol fuel ts s k s' tr k' h
+
+theorem sph_run2_conserves (rmin dr : F) (hdr : 0 < dr) (n : Nat) (hn : 1 ≤ n) (κ' : F)
+    (sol : RunSolver F) (dt ts te atol : F) (fuel k k' : Nat) (s s' : List F) (tr : F)
+    (h : solverRuns (cells2 [n]) sol (twoFieldRate .sph [n] rmin [dr] [false] κ') dt te atol fuel ts s k = some (s', tr, k')) :
+    cellMass2 .sph [n] rmin [dr] s' = cellMass2 .sph [n] rmin [dr] s :=
+  solverRuns_conserves ((cellSum (fun i => volSph (centre rmin dr) dr (i : Int)) (fun i => [(i : Int)]) n).comp projC)
+    (cells2 [n])
+    (twoField_readsOnly _ [n] (cellSum_readsOnly _ _ n _ (fun i h1 h2 => mem_validCells_cons n [] i [] h1 h2 mem_validCells_nil)))
+    (twoFieldRate .sph [n] rmin [dr] [false] κ')
+    (twoField_conserving _ .sph [n] rmin [dr] [false] κ'
+      (sphRate_conserving rmin dr hdr n hn _ _ (Or.inr ⟨rfl, rfl⟩) (fun k hk => by simp [consCond] at hk) (muTwo κ')))
+    sol dt te atol fuel ts s k s' tr k' h
+
+theorem cyl_run2_conserves (rmin dr dz : F) (h0 : 0 ≤ rmin) (hdr : 0 < dr) (hdz : dz ≠ 0) (n m : Nat) (hn : 1 ≤ n)
+    (hm : 1 ≤ m) (pz : Bool) (κ' : F) (sol : RunSolver F) (dt ts te atol : F) (fuel k k' : Nat) (s s' : List F) (tr : F)
+    (h : solverRuns (cells2 [n, m]) sol (twoFieldRate .cyl [n, m] rmin [dr, dz] [false, pz] κ') dt te atol fuel ts s k
+      = some (s', tr, k')) :
+    cellMass2 .cyl [n, m] rmin [dr, dz] s' = cellMass2 .cyl [n, m] rmin [dr, dz] s :=
+  solverRuns_conserves
+    ((cellSum2 (fun i _ => volCyl (centre rmin dr) dr dz (i : Int)) (fun i j => [(i : Int), (j : Int)]) n m).comp projC)
+    (cells2 [n, m])
+    (twoField_readsOnly _ [n, m] (cellSum2_readsOnly _ _ n m _ (fun i j h1 h2 h3 h4 =>
+      mem_validCells_cons n [m] i [(j : Int)] h1 h2 (mem_validCells_cons m [] j [] h3 h4 mem_validCells_nil))))
+    (twoFieldRate .cyl [n, m] rmin [dr, dz] [false, pz] κ')
+    (twoField_conserving _ .cyl [n, m] rmin [dr, dz] [false, pz] κ'
+      (cylRate_conserving rmin dr dz h0 hdr hdz n m hn hm pz _ _ (Or.inr ⟨rfl, rfl⟩) (fun k hk => by simp [consCond] at hk) (muTwo κ')))
+    sol dt te atol fuel ts s k s' tr k' h
+
+/-- the coupled run evaluated: 2 cells, `a = [1, -1]`, `c = [2, 0]`, two Euler steps: `a` and `c` change, the total of `c` does
+not (the total of `a` does: its conditions are not conserving) -/
+example : (solverRuns (cells2 [2]) (.explicit .euler) (twoFieldRate .cart [2] (0 : Rat) [1 / 2] [false] (1 / 2))
+      (1 / 64) (1 / 32) (1 / 64000000) 16 0 [1, -1, 2, 0] 0).map
+        (fun r => (decide (r.1 = [1, -1, 2, 0]), r.2.2, cellMass2 .cart [2] (0 : Rat) [1 / 2] r.1))
+    = some (false, 2, cellMass2 .cart [2] (0 : Rat) [1 / 2] [1, -1, 2, 0]) := by decide +kernel
+
+end radialruns2
+
 end PdeVerif.Conserve
